@@ -385,6 +385,11 @@ def b64_tables(ctx, rule="B64-TABLE"):
                 from ..lib import lifted_closures
                 at = int(ma.group(1))
                 recv = S.val(f.blocks[at]["term"]["args"][0])
+                for _ in range(3):
+                    mcp = re.fullmatch(r"call@(\d+):std::option::Option::<&(?:mut )?T>::(copied|cloned)", recv)
+                    if not mcp:
+                        break
+                    recv = S.val(f.blocks[int(mcp.group(1))]["term"]["args"][0])
                 fn_arg = S.val(f.blocks[at]["term"]["args"][1])
                 via = fn_arg.endswith("streamname::to_b64") or any(L.call_block == at and any(cname(prog, t) == SN + "to_b64" for b, t in L.fn.calls()) for L in lifted_closures(prog, f, S))
                 if via:
